@@ -750,6 +750,8 @@ func main() {
 		}
 	}
 
+	duplexFacts(e, p)
+
 	if len(e.errs) > 0 {
 		for _, m := range e.errs {
 			fmt.Fprintf(os.Stderr, "translate: SHAPE %s\n", m)
